@@ -124,3 +124,12 @@ func VerifRtcpGarbage() {
 	symapi.Assert(len(w.frames) == 1, "good-nal-after-rtcp-emitted")
 	symapi.Reach("end")
 }
+
+// twin (C07): claims a truncated STAP-A still yields a frame - must be violated
+func VerifDepackTwin() {
+	w := &verifRecWriter{}
+	dp := verifNewH264(w)
+	b := symapi.Bytes("b", 2)
+	dp.Depacketize(&Packet{Channel: ChannelVideo, Data: []byte{24, 0, 9, b[0], b[1]}})
+	symapi.Assert(len(w.frames) == 1, "twin-truncated-unit-emitted")
+}
